@@ -28,6 +28,7 @@ def closure(pkgs, pkg, feat, seen=None):
     seen.add((pkg, feat))
     for item in pkgs[pkg]['features'].get(feat, []):
         if item.startswith('dep:'):
+            seen.add((item[4:], 'dep'))       # the optional dependency itself is switched on
             continue
         if '/' in item:
             d, f = item.split('/', 1)
@@ -61,4 +62,16 @@ def check(rep):
             rep.ob('feat:%s:%s' % (pn, name), 'FEAT-WIRING', pn, p['manifest_path'].replace(facts.REPO.rstrip('/') + '/', ''),
                    'feature %s of %s switches on %s/%s (the code the feature selects lives there)' % (name, pn, IMPL, name), ok,
                    detail='enabling %s/%s reaches only %s' % (pn, name, sorted('%s/%s' % x for x in reach)), how='feature closure over the workspace manifests')
+    # the `macros` feature of a facade crate must switch on the optional dependency that provides the macros (unic-langid -> unic-langid-macros)
+    for pn, p in sorted(pkgs.items()):
+        if 'macros' not in p['features']:
+            continue
+        opt = [d['name'] for d in p.get('dependencies', []) if d.get('optional') and d['name'].endswith('-macros')]
+        for dep in opt:
+            n += 1
+            reach = closure(pkgs, pn, 'macros')
+            ok = any(x[0] == dep for x in reach)
+            rep.ob('feat:%s:macros' % pn, 'FEAT-WIRING', pn, p['manifest_path'].replace(facts.REPO.rstrip('/') + '/', ''),
+                   'feature macros of %s switches on the optional dependency %s (which exports the macros)' % (pn, dep), ok,
+                   detail='enabling %s/macros reaches only %s' % (pn, sorted('%s/%s' % x for x in reach)), how='feature closure over the workspace manifests')
     return n
